@@ -8,6 +8,7 @@ import NetflowModel.Wire
 import NetflowModel.Generated
 import NetflowModel.Oracle
 import NetflowModel.Findings
+import NetflowModel.Cost
 open Lean Netflow
 
 /-- one `parse_bytes` call as observed on the real crate and on the model -/
@@ -153,7 +154,12 @@ def handleParse (s : Sess) (i : Nat) (op impl : Json) (line2 : Option Json := no
               [("C17", (Findings.usesUnknown c a2.state || Findings.usesUnknown c before || Findings.reportsUnknownTemplate c a2.pkts || same) && Findings.noUnknownEntries c a.pkts)]
         let jsons : List Json := match impl.getObjVal? "json" with | .ok (.arr xs) => xs.toList | _ => []
         let c16 : List (String × Bool) := if wants op "json" then [("C16", a.outcome != "done" || Preds.jsonAllOk c a.pkts jsons)] else []
-        let orc := orc ++ c07 a ++ c17 ++ c16
+        let alloc := getNatD impl "alloc" 0
+        let c15 : List (String × Bool) :=
+          if wants op "alloc" then
+            [("C15", a.outcome != "done" || (Cost.allocBounded 64 16 131072 buf a.pkts alloc && Cost.resultBounded 256 1024 buf before a.pkts))]
+          else []
+        let orc := orc ++ c07 a ++ c17 ++ c16 ++ c15
         let morc := morc ++ c07 m
         let classes0 := Findings.outputClasses c a.pkts ++
             (match (fromJson? ((op.getObjVal? "msgs").toOption.getD Json.null) : Except String (List Spec.Msg)) with
@@ -161,6 +167,10 @@ def handleParse (s : Sess) (i : Nat) (op impl : Json) (line2 : Option Json := no
                 let d0 : Spec.Defs := ((s.defs.lookup p).getD (some {})).getD {}
                 Findings.inputClasses c d0 msgs ++ (match sv with | some v => Findings.inputClasses c v.defs msgs | none => [])
               | .error _ => [])
+        let classes0 := classes0 ++
+          (if a.pkts.length ≥ 32 then ["c15-many-packets"] else []) ++
+          (if before.ipT.any (fun e => e.2.fields.any fun f => f.len == 0) || before.ipO.any (fun e => e.2.fields.any fun f => f.len == 0) ||
+              before.v9T.any (fun e => e.2.fields.any fun f => f.len == 0) then ["c15-zero-length-fields"] else [])
         let stickyNow := ((s.sticky.lookup p).getD []) ++ classes0.filter (fun x => x == "ipfix-multi-template-set")
         let classes := (classes0 ++ stickyNow).eraseDups
         let call : Call := { buf := buf, impl := a, model := m, implBefore := before, jsons := jsons.map (·.compress) }
@@ -181,6 +191,8 @@ def handleParse (s : Sess) (i : Nat) (op impl : Json) (line2 : Option Json := no
             | some v => if v.conformant && buf.length ≤ 4096 then toJson a.pkts else Json.null
             | none => Json.null),
           ("classes", jsonOfList classes),
+          ("alloc", getNatD impl "alloc" 0), ("result_size", Cost.resultSize a.pkts), ("state_wire", Cost.stateWire before),
+          ("npkts", a.pkts.length),
           ("len", buf.length)])
 
 def allPkts (cs : List Call) (f : Call → ParseAns) : List Packet := cs.flatMap fun c => (f c).pkts
